@@ -408,7 +408,9 @@ pub fn run_monitor(mon: &dyn Monitor, tier: Tier, seed: u64) -> Merged {
             }
         }
     }
-    merged.counters.insert("distinct_nontrivial".into(), count_distinct(&hash_files));
+    if !configs.is_empty() {
+        merged.counters.insert("distinct_nontrivial".into(), count_distinct(&hash_files));
+    }
     // cross-configuration digest comparison
     if mon.digest_block() > 0 && configs.len() >= 2 {
         let a = merged.digests.get(configs[0]).cloned().unwrap_or_default();
@@ -608,6 +610,17 @@ pub fn check_main(args: &[String]) -> i32 {
                     }
                     if let Some(c) = j.get("coverage") {
                         extra = c.clone();
+                        // a stage may contribute measured counters and samples of its own
+                        if let Some(J::Obj(kv)) = c.get("counters") {
+                            for (k, v) in kv {
+                                if let J::Int(n) = v {
+                                    *merged.counters.entry(k.clone()).or_insert(0) += *n as u64;
+                                }
+                            }
+                        }
+                        for s in c.arr("samples") {
+                            merged.samples.push(s.clone());
+                        }
                     }
                 }
                 Err(e) => merged.inconclusive.push(format!("side-stage summary {} does not parse: {}", p, e)),
@@ -616,7 +629,7 @@ pub fn check_main(args: &[String]) -> i32 {
             merged.inconclusive.push(format!("side-stage summary {} missing", p));
         }
     }
-    let wall = t0.elapsed().as_secs_f64();
+    let wall = t0.elapsed().as_secs_f64() + extra.num("stage_wall_s").unwrap_or(0.0);
     let rep = conclude(mon.as_ref(), tier, seed, &mut merged, extra, wall);
     let evals = *merged.counters.get("evaluations").unwrap_or(&0);
     println!(
